@@ -334,6 +334,16 @@ func ruleR02(c *Ctx) {
 							if sel, ok := ast.Unparen(x.Results[0]).(*ast.SelectorExpr); ok {
 								lv = identVar(info, sel.X)
 							}
+							if lv != nil {
+								// leaf := t.findLeaf(keyS): a typed leaf handed back by a lookup helper
+								if dc := c.defCallOf(u, lv); dc != nil && !isConversion(info, dc) && c.m.calleeUnit(dc) != nil {
+									if why := c.foundThroughHelper(tk, u, x, form); why != "" {
+										nEvents++
+										c.r.ok("R02", fmt.Sprintf("%s.%s return-found", tk.Name, mname), c.m.pos(x.Pos()), why, props...)
+										continue
+									}
+								}
+							}
 							if lv == nil {
 								// the value of a leaf handed back by a lookup helper that returns a leaf
 								// only after the full-key comparison (search(root, key, …))
@@ -347,6 +357,15 @@ func ruleR02(c *Ctx) {
 								continue
 							}
 							check("return-found", x, lv)
+						}
+						// the descent of Search in a helper that answers with the leaf or nil
+						// (findLeaf): a leaf is handed back only after the full-key comparison
+						if mname == "Search" && len(x.Results) == 1 && u.Decl != nil && u.Decl.Name.Name != "Search" && !info.Types[x.Results[0]].IsNil() {
+							if _, isPtr := info.TypeOf(x.Results[0]).Underlying().(*types.Pointer); isPtr || isUnsafePointer(info.TypeOf(x.Results[0])) {
+								if lv := identVar(info, ast.Unparen(x.Results[0])); lv != nil {
+									check("return-found", x, lv)
+								}
+							}
 						}
 						if mname == "Delete" && len(x.Results) == 1 && isConstBool(info, x.Results[0], true) {
 							check("return-true", x, nil)
